@@ -508,7 +508,10 @@ class Forcing(BaseForce):
         step = self.modules["time"].step
 
         # Local depth level and interpolation coefficient
-        self.K, self.A = z2s(self.grid.z_r, X - self.grid.i0, Y - self.grid.j0, Z)
+        # (round before shifting: the cell must not depend on the subgrid offset)
+        self.K, self.A = z2s(
+            self.grid.z_r, X.round() - self.grid.i0, Y.round() - self.grid.j0, Z
+        )
 
         # Read from config?
         interpolate_velocity_in_time = True
@@ -646,7 +649,12 @@ class Forcing(BaseForce):
         # K, A = z2s(self.grid.z_r, X - i0, Y - j0, Z)
         for name in self.extra_forcing:
             self.variables[name] = sample3D(
-                self.fields[name], X - i0, Y - j0, self.K, self.A, method="nearest"
+                self.fields[name],
+                X.round() - i0,
+                Y.round() - j0,
+                self.K,
+                self.A,
+                method="nearest",
             )
             # OOPS: May not need self.variables[name]
             #   Keep for backwards compability?
